@@ -1034,11 +1034,22 @@ func (e *c06Env) peerSettings(vals []xhttp2.Setting) string {
 			e.woke = true // the only setting whose processing broadcasts
 		}
 	}
+	invalid := false // the peer's own protocol violation: a connection error, no acknowledgement
+	for _, v := range vals {
+		if (v.ID == xhttp2.SettingInitialWindowSize && v.Val > math.MaxInt32) ||
+			(v.ID == xhttp2.SettingMaxFrameSize && (v.Val < 16384 || v.Val > 1<<24-1)) {
+			invalid = true
+		}
+	}
 	e.fr.WriteSettings(vals...)
 	e.settingsSent = true
-	e.pendSettings = append(e.pendSettings, vals)
-	want := e.ackSeen + 1
-	e.collect(func() bool { return e.ackSeen >= want }, c06Wait)
+	if invalid {
+		e.collect(func() bool { return e.closed }, c06Wait)
+	} else {
+		e.pendSettings = append(e.pendSettings, vals)
+		want := e.ackSeen + 1
+		e.collect(func() bool { return e.ackSeen >= want }, c06Wait)
+	}
 	e.afterOp(false)
 	return "ps:" + tok
 }
